@@ -190,3 +190,17 @@ impl Property for C04 {
         match judge(fmt, &v, ctx) { Ok(()) => Outcome::Pass, Err(f) => Outcome::Fail(f) }
     }
 }
+
+/// The concrete inputs a C04 case stands for: (tool format, game, source bytes, mapfile bytes).
+pub fn materialize(case: &Value) -> Option<(Fmt, String, Vec<u8>, Vec<Vec<u8>>)> {
+    let muts = case["mutations"].as_array().cloned().unwrap_or_default();
+    if case["kind"] == "mapfile" {
+        let mut map = case["map"].as_str().unwrap_or("").as_bytes().to_vec();
+        for m in &muts { apply_map_mutation(&mut map, m); }
+        return Some((Fmt::parse(case["fmt"].as_str()?), case["game"].as_str()?.to_string(), case["text"].as_str().unwrap_or("").as_bytes().to_vec(), vec![map]));
+    }
+    let base = case["base"].as_str().unwrap_or("raw");
+    let mut text: Vec<u8> = if base == "bundled" { std::fs::read(case["path"].as_str()?).ok()? } else { case["text"].as_str().unwrap_or("").as_bytes().to_vec() };
+    for m in &muts { apply_text_mutation(&mut text, m); }
+    Some((Fmt::parse(case["tool_fmt"].as_str()?), case["tool_game"].as_str()?.to_string(), text, vec![]))
+}
